@@ -188,6 +188,11 @@ def _fire(site, resp):
             resp.data = b'JUNK-DATA'
         elif j == 'media':
             resp.media = {'junk': 1}
+        elif j == 'all':
+            # a draft composed through several attributes at once (media plus a pre-rendered text, a data fallback)
+            resp.media = {'junk': 1}
+            resp.data = b'JUNK-DATA'
+            resp.text = 'JUNK-TEXT'
         _cur.fired += 1
         raise _cur.exc
 
@@ -248,6 +253,11 @@ def _responder_body(resp):
             resp.data = b'JUNK-DATA'
         elif j == 'media':
             resp.media = {'junk': 1}
+        elif j == 'all':
+            # a draft composed through several attributes at once (media plus a pre-rendered text, a data fallback)
+            resp.media = {'junk': 1}
+            resp.data = b'JUNK-DATA'
+            resp.text = 'JUNK-TEXT'
     _fire('responder', resp)
 
 
@@ -558,7 +568,7 @@ def run_select(item, rep):
 # ---------------------------------------------------------------------------
 SITES = ('req', 'rsrc', 'before', 'responder', 'after', 'resp', 'serialize', 'unserialisable', 'render_body')
 RENDER_SITES = ('serialize', 'unserialisable', 'render_body')
-JUNK = (None, 'text', 'data', 'media')
+JUNK = (None, 'text', 'data', 'media', 'all')
 SITE_DAG = (('Exception',), (0,), (0, 'HTTPError'), ('HTTPStatus',))     # A, B(A), M(A, HTTPError), S(HTTPStatus)
 # registry variants: list of (target, hid); targets: 0..3 generated, or root name
 SITE_REGS = (
@@ -637,7 +647,8 @@ ACCEPTS = (None, 'application/json', 'application/xml', 'text/xml', '*/*', 'text
            'application/xml;q=0.5, application/json;q=0.4', 'application/json;q=0.5, application/xml;q=0.9',
            'application/json;q=0.8, text/xml;q=0.8', 'text/xml, application/json', 'application/json;q=0, */*;q=0.1',
            'text/html', 'application/vnd.x+json', 'application/vnd.x+xml', 'application/x-custom',
-           'application/x-custom;q=0.2, application/json;q=0.1', 'nonsense', 'application/json;q=high')
+           'application/x-custom;q=0.2, application/json;q=0.1', 'nonsense', 'application/json;q=high',
+           '')        # the header is there, its value is empty: no preference expressed
 STRING_ACCEPTS = (None, 'application/xml', 'text/xml;q=1, application/json;q=0.1', 'application/x-custom')
 
 
@@ -963,7 +974,7 @@ def check(rep):
                                           'named': '3 for diamond and mix, 2 for the others' if rep.tier == 'thorough' else 2},
                    'registration_ops': 'every class of the universe x {h1,h2}; handler=None (static handle) per generated class; tuple registrations',
                    'probe': 'after every registration one instance of every class of the universe + KeyError, raised by the responder'},
-        'sites': {'sites': SITES, 'registries': len(SITE_REGS), 'raised_classes': 8, 'junk': ['none', 'text', 'data', 'media']},
+        'sites': {'sites': SITES, 'registries': len(SITE_REGS), 'raised_classes': 8, 'junk': ['none', 'text', 'data', 'media', 'all three']},
         'render': {'cases_per_stack': len(cases), 'titles': len(TITLES), 'descriptions': len(DESCRIPTIONS), 'codes': len(CODES),
                    'hrefs': len(HREFS), 'status_forms': [repr(s) for s in STATUS_FORMS], 'header_forms': len(HEADER_FORMS),
                    'accepts': [a for a in ACCEPTS]},
